@@ -23,7 +23,13 @@ type CacheEntity interface {
 	Id() entity.Id
 	NeedCommit() bool
 	Lock()
+	// setRemoved tells the instance whether its entity has been removed from the repository: when it
+	// has, the instance refuses to write it again
+	setRemoved(removed bool)
 }
+
+// ErrEntityRemoved is returned when committing through an instance whose entity has been removed
+var ErrEntityRemoved = errors.New("entity has been removed")
 
 type getUserIdentityFunc func() (*IdentityCache, error)
 
@@ -492,8 +498,18 @@ func (sc *SubCache[EntityT, ExcerptT, CacheT]) Remove(prefix string) error {
 
 	sc.mu.Lock()
 
+	// whoever got the loaded instance earlier and still holds it must not write the entity back
+	// (the instance is taken from the map: one that has been evicted in between is locked for ever)
+	loaded, isLoaded := sc.cached[e.Id()]
+	if isLoaded {
+		loaded.setRemoved(true)
+	}
+
 	err = sc.actions.Remove(sc.repo, e.Id())
 	if err != nil {
+		if isLoaded {
+			loaded.setRemoved(false)
+		}
 		sc.mu.Unlock()
 		return err
 	}
@@ -520,8 +536,16 @@ func (sc *SubCache[EntityT, ExcerptT, CacheT]) Remove(prefix string) error {
 func (sc *SubCache[EntityT, ExcerptT, CacheT]) RemoveAll() error {
 	sc.mu.Lock()
 
+	// whoever got these instances earlier and still holds them must not write the entities back
+	for _, e := range sc.cached {
+		e.setRemoved(true)
+	}
+
 	err := sc.actions.RemoveAll(sc.repo)
 	if err != nil {
+		for _, e := range sc.cached {
+			e.setRemoved(false)
+		}
 		sc.mu.Unlock()
 		return err
 	}
